@@ -56,7 +56,14 @@ func checkC18(w *World, r *Report) {
 			switch {
 			case strings.HasSuffix(calleeName(&c.Call), "expand.ListEnviron"):
 				desc = w.APThrough(c.Call.Args[0])
-				okList = strings.HasPrefix(desc, "append(recv.env,") && strings.Contains(desc, "arg1.Env.Map()") && !strings.Contains(desc[len("append(recv.env,"):], "recv.env")
+				// (the base may first be copied into a fresh slice: append(make(…), base...) stands for the base)
+				flat := desc
+				if strings.HasPrefix(flat, "append(append(make@") {
+					if i := strings.Index(flat, ",recv.env),"); i > 0 && !strings.Contains(flat[len("append(append("):i], ",") {
+						flat = "append(recv.env," + flat[i+len(",recv.env),"):]
+					}
+				}
+				okList = strings.HasPrefix(flat, "append(recv.env,") && strings.Contains(flat, "arg1.Env.Map()") && !strings.Contains(flat[len("append(recv.env,"):], "recv.env")
 			case strings.HasSuffix(calleeName(&c.Call), "utils.RenderString"):
 				okRender = w.AP(c.Call.Args[0]) == "arg1.Command" && w.AP(c.Call.Args[1]) == "arg1.Vars.Map()"
 			}
